@@ -103,25 +103,29 @@ def r2(p, rep):
 
 def r4(p, rep):
     rep.rule("C07.R4", "implicit outputs chosen from a set are taken only when the choice is unique", "T-DOM (singleton guard + documented error)", floor=1)
-    f = p.func("_parse_op", "adapter.einx_from_namedtensor")
-    cfg = CFG(f.node)
+    f0 = p.func("_parse_op", "adapter.einx_from_namedtensor")
     n = 0
-    for node in walk_no_nested(f.node):
-        if isinstance(node, ast.Call) and isinstance(node.func, ast.Attribute) and node.func.attr == "pop" and not node.args:
-            st = enclosing(node, ast.Assign)
-            if st is None or "exprs_out" not in norm(st.targets[0]):
-                continue
-            n += 1
-            coll = norm(node.func.value)
-            facts = cfg.guards_of_ast(node)
-            ok = c16.singleton_guard(facts, coll)
-            rep.add("C07.R4", f"{f.qualname}:implicit-output:{coll}.pop()", f"{f.module.rel}:{node.lineno}", ok, f"`{coll}.pop()` only when len({coll}) == 1 (otherwise SemanticError)" if ok else f"the implicit output is popped from `{coll}` without a test that this very set has exactly one element: an ambiguous call (e.g. 'a b, b a') silently picks one input - which one depends on set order")
-            # the set holds the candidate *expressions*, and is filled under the subset test
-            adds = [a for a in walk_no_nested(f.node) if isinstance(a, ast.Call) and norm(a.func) == f"{coll}.add"]
-            sub = any("issubset" in norm(x) for a in adds for x in [enclosing(a, ast.For)] if x is not None)
-            rep.add("C07.R4", f"{f.qualname}:implicit-output:{coll}:superset-rule", f"{f.module.rel}:{node.lineno}", bool(adds) and sub, "candidates are the inputs whose axis names contain those of all other inputs")
+    for f in common.with_helpers(p, f0, depth=4):
+        cfg = CFG(f.node)
+        for node in walk_no_nested(f.node):
+            if isinstance(node, ast.Call) and isinstance(node.func, ast.Attribute) and node.func.attr == "pop" and not node.args:
+                st = node
+                while st is not None and not isinstance(st, ast.stmt):
+                    st = getattr(st, "_parent", None)
+                # the popped element becomes (part of) the output expression
+                if not (isinstance(st, (ast.Assign, ast.Return)) and "__deepcopy__" in norm(st)):
+                    continue
+                n += 1
+                coll = norm(node.func.value)
+                facts = cfg.guards_of_ast(node)
+                ok = c16.singleton_guard(facts, coll) and common.len_bounds(facts, coll)[0] >= 1
+                rep.add("C07.R4", f"{f0.qualname}:implicit-output:pop()", f"{f.module.rel}:{node.lineno}", ok, f"`{coll}.pop()` only when len({coll}) == 1 (otherwise SemanticError)" if ok else f"the implicit output is popped from `{coll}` without a test that this very set has exactly one element: an ambiguous call (e.g. 'a b, b a') silently picks one input - which one depends on set order")
+                adds = [a for a in walk_no_nested(f.node) if isinstance(a, ast.Call) and norm(a.func) == f"{coll}.add"]
+                txt = " ".join(norm(x) for a in adds for x in [enclosing(a, ast.For)] if x is not None)
+                sub = "issubset" in txt or "<=" in txt
+                rep.add("C07.R4", f"{f0.qualname}:implicit-output:superset-rule", f"{f.module.rel}:{node.lineno}", bool(adds) and sub, "candidates are the inputs whose axis names contain those of all other inputs")
     if n == 0:
-        raise AnalysisError("unrecognised idiom: no `exprs_out = [<set>.pop()...]` in _parse_op")
+        raise AnalysisError("unrecognised idiom: no `<set>.pop().__deepcopy__()` implicit output reachable from _parse_op")
 
 
 def r5(p, rep):
